@@ -96,6 +96,11 @@ type Case struct {
 	// the decoder agree, i.e. that the full-table streams are valid ones.
 	ExpectOut int `json:"expect_out,omitempty"`
 
+	// Tags are facts the generator knows about a body it built itself (for
+	// example which gray values a JBIG2 halftone region uses).  They become
+	// classes; no oracle reads them.
+	Tags []string `json:"tags,omitempty"`
+
 	// ProgScans is set for progressive JPEGs from the harness's own builder:
 	// the number of scans which each visit every block of the (single)
 	// component.  It drives the work oracle (see progPassLimit).
@@ -859,6 +864,12 @@ func classify(c *Case) (bool, []string) {
 	var cls []string
 	add := func(s string) { cls = append(cls, s) }
 	add("o:" + c.Origin)
+	for _, tag := range c.Tags {
+		add(tag)
+	}
+	if c.ExpectOut > 0 && len(c.Tags) > 0 && ob.eof && ob.out == int64(c.ExpectOut) {
+		add("halftone/decoded")
+	}
 	msByOrigin[c.Origin] += ob.elapsed.Milliseconds() + ob.dElapsed.Milliseconds()
 	switch {
 	case ob.chainLen < 0:
@@ -964,7 +975,7 @@ func classify(c *Case) (bool, []string) {
 			add("layered-jbig2-pulled>=1MiB")
 		}
 	}
-	if c.ExpectOut > 0 && ob.eof && ob.out == int64(c.ExpectOut) {
+	if c.ExpectOut > 0 && len(c.Tags) == 0 && ob.eof && ob.out == int64(c.ExpectOut) {
 		add("lzw-full-ok")
 	}
 	if ob.rawLen > 0 && ob.out >= 1000*int64(ob.rawLen) {
